@@ -653,3 +653,22 @@ impl<K: Copy + Ord + Default, V: Clone + Default> MapTree<K, V> {
         }
     }
 }
+
+#[cfg(feature = "itree_verif")]
+impl<K: Copy + Ord + Default, V: Clone + Default> MapTree<K, V> {
+    /// (root, per-slot (parent, left, right, is_red), free list bottom first, free list capacity)
+    pub fn verif_snapshot(&self) -> (u32, Vec<(u32, u32, u32, bool)>, Vec<u32>, usize) {
+        let nodes = self
+            .store
+            .buffer
+            .iter()
+            .map(|n| (n.parent, n.left, n.right, n.color == Color::Red))
+            .collect();
+        (self.root, nodes, self.store.unused.clone(), self.store.unused.capacity())
+    }
+
+    pub fn verif_entity(&self, index: u32) -> (K, V) {
+        let e = &self.store.buffer[index as usize].entity;
+        (e.key, e.val.clone())
+    }
+}
